@@ -335,7 +335,6 @@ package decorator
 // What save relies on: printing one file does not touch the package's file list, the decorator's
 // file-name table or the write log.
 //@ func (pr *Restorer) Fprint
-//@ trusted
 //@ modifies allbut(heap(Package.Syntax); heap(Package.Decorator); heap(Package.Dir); heap(Decorator.Filenames); elems(*dst.File); map(*dst.File, string))
 
 //@ func (p *Package) save
@@ -354,9 +353,13 @@ package decorator
 // Import management edits the dst tree and the restorer's package-name table only; it does not touch
 // the position state, the node maps, the object maps or the file set (frame, discharged on the body).
 //@ func (r *FileRestorer) updateImports
-//@ modifies allbut(heap(FileRestorer.cursor); heap(FileRestorer.lines); heap(FileRestorer.comments); heap(FileRestorer.cursorAtNewLine); heap(FileRestorer.base); heap(FileRestorer.Restorer); heap(FileRestorer.file); heap(FileRestorer.Name); heap(Restorer.Fset); heap(Restorer.Extras); heap(Restorer.Map); heap(token.FileSet.base); elems(int); elems(*ast.CommentGroup); map(dst.Node, ast.Node); map(ast.Node, dst.Node); heap(FileRestorer.nodeDecl); heap(FileRestorer.nodeData); map(*dst.Object, *ast.Object); map(*ast.Object, *dst.Object); map(*dst.Scope, *ast.Scope); map(*ast.Scope, *dst.Scope); map(*ast.Object, dst.Node))
+//@ modifies allbut(heap(FileRestorer.cursor); heap(FileRestorer.lines); heap(FileRestorer.comments); heap(FileRestorer.cursorAtNewLine); heap(FileRestorer.base); heap(FileRestorer.Restorer); heap(FileRestorer.file); heap(FileRestorer.Name); heap(Restorer.Fset); heap(Restorer.Extras); heap(Restorer.Map); heap(token.FileSet.base); elems(int); elems(*ast.CommentGroup); map(dst.Node, ast.Node); map(ast.Node, dst.Node); heap(FileRestorer.nodeDecl); heap(FileRestorer.nodeData); map(*dst.Object, *ast.Object); map(*ast.Object, *dst.Object); map(*dst.Scope, *ast.Scope); map(*ast.Scope, *dst.Scope); map(*ast.Object, dst.Node); heap(Package.Syntax); heap(Package.Decorator); heap(Package.Dir); heap(Decorator.Filenames); elems(*dst.File); map(*dst.File, string))
+
+//@ func (r *FileRestorer) Fprint
+//@ modifies allbut(heap(Package.Syntax); heap(Package.Decorator); heap(Package.Dir); heap(Decorator.Filenames); elems(*dst.File); map(*dst.File, string))
 
 //@ func (r *FileRestorer) RestoreFile
+//@ modifies allbut(heap(Package.Syntax); heap(Package.Decorator); heap(Package.Dir); heap(Decorator.Filenames); elems(*dst.File); map(*dst.File, string))
 //@ ensures error_result: err != nil ==> result == nil
 //@ requires restorer: r.Restorer != nil && r.Ast.Nodes != nil && r.Dst.Nodes != nil
 //@ requires maps: r.mapsInv()
@@ -535,7 +538,6 @@ package decorator
 //@ ensures ast_map_grows: forall k dst.Node :: {has(f.Ast.Nodes, k)} old(has(f.Ast.Nodes, k)) ==> has(f.Ast.Nodes, k) && f.Ast.Nodes[k] == old(f.Ast.Nodes[k])
 
 //@ func (f *fileDecorator) resolvePath
-//@ trusted
 //@ modifies newobjects
 //@ ensures error_result: err != nil ==> result == ""
 
@@ -545,11 +547,14 @@ package decorator
 // Assumed for now (bodies not under contract): building and linking the fragment list reads the ast and
 // the file set and writes only the file decorator's own tables.
 //@ func (f *fileDecorator) fragment
-//@ trusted
 //@ modifies allbut(map(ast.Node, dst.Node); map(dst.Node, ast.Node); heap(Decorator.Map); heap(fileDecorator.Decorator); heap(Decorator.Resolver); heap(Decorator.Path); heap(Decorator.Filenames); heap(Decorator.Fset); map(*dst.File, string))
 
+// The generated fragment collector (decorator-fragment-generated.go) recurses over the ast with the same frame.
+//@ func (f *fileDecorator) addNodeFragments
+//@ modifies allbut(map(ast.Node, dst.Node); map(dst.Node, ast.Node); heap(Decorator.Map); heap(fileDecorator.Decorator); heap(Decorator.Resolver); heap(Decorator.Path); heap(Decorator.Filenames); heap(Decorator.Fset); map(*dst.File, string))
+
+
 //@ func (f *fileDecorator) link
-//@ trusted
 //@ modifies allbut(map(ast.Node, dst.Node); map(dst.Node, ast.Node); heap(Decorator.Map); heap(fileDecorator.Decorator); heap(Decorator.Resolver); heap(Decorator.Path); heap(Decorator.Filenames); heap(Decorator.Fset); map(*dst.File, string); heap(fileDecorator.before); heap(fileDecorator.after); heap(fileDecorator.decorations))
 
 //@ pred (d *Decorator) decMapsInv() bool {
